@@ -17,7 +17,11 @@ two-line wrapper that #includes /repo's fff_gen_stats.c is compiled per run):
                 mean, sign, wilcoxon, student (tolerance), antisymmetry
   pvalues       permutation_test.pvalue / calibrate on the real Python (installed
                 onesample/twosample glue: stale fallback) - finding p == 0
-  python stats  estimate_mean re-computed with exact rationals
+  python stats  estimate_mean / estimate_varatio re-computed with exact rationals
+  mixed effects MixedEffectsModel.fit vs the defining EM recursion (exact rationals, 1e-10) and vs the
+                Coq model (ModelMfx.v); history independence (fit A then fit B on ONE object ==
+                fresh fit of B: same shape, same sample, other n_tests, two earlier fits);
+                mfx_stat / one_sample_* / two_sample_* wrappers, sign flip and label swap
 """
 import ctypes
 import itertools
@@ -117,11 +121,12 @@ def build_comb_wrapper(ck):
     return W
 
 
-def run_terms(ck, name, terms, metas, show):
+def run_terms(ck, name, terms, metas, show, hdr=None, shard=400):
     """Evaluate model-vs-impl boolean terms; report the first disagreement."""
     if not (ck.build is not None and ck.build.ok) or not terms:
         return
-    res = ck.coq_bools(HDR, terms, shard=400, name=name)
+    HDR = hdr or globals()["HDR"]
+    res = ck.coq_bools(HDR, terms, shard=shard, name=name)
     ck.cov["traces_validated_against_impl"] += len(res)
     for ok, meta in zip(res, metas):
         if not ok:
@@ -706,7 +711,294 @@ def sec_python_stats(ck):
         out2 = OSM.estimate_mean(-Y, sd.copy())
         if not np.allclose(np.asarray(out2["effect"]), -np.asarray(out["effect"]), rtol=0, atol=1e-12):
             ck.fail("estimate_mean/not-antisymmetric", "estimate_mean(-Y) effect != -estimate_mean(Y) effect", {"Y": Y.tolist(), "sd": sd.tolist()})
-    ck.section("python_stats", note="estimate_mean re-computed with exact rationals; estimate_varatio / mixed_effects_stat not covered")
+    ck.section("python_stats", note="estimate_mean re-computed with exact rationals")
+
+
+# ---------------------------------------------------------------------------- mixed effects (Python)
+HDR_MFX = ("From Coq Require Import List Bool ZArith NArith QArith.\n"
+           "From NV.Lib Require Import Harness.\n"
+           "From NV.C17 Require Import Model ModelMfx.\n"
+           "Close Scope Q_scope.\n"
+           "Definition qclose (a b : Q) : bool := Qle_bool (Qabs (a - b)%Q) (Qmake 1 10000000000).\n"
+           "Definition qlclose := list_eqb qclose.\n")
+
+
+def cqmat(M):
+    return "[" + "; ".join(cql(r) for r in M) + "]"
+
+
+def exact_pinv(X):
+    """Moore-Penrose inverse of a Fraction matrix whose non-zero columns are independent
+    ((X'X)^-1 X' on the non-zero columns, zero rows for zero columns)."""
+    n, r = len(X), len(X[0])
+    keep = [j for j in range(r) if any(X[i][j] != 0 for i in range(n))]
+    k = len(keep)
+    A = [[sum(X[i][a] * X[i][b] for i in range(n)) for b in keep] for a in keep]
+    B = [[X[i][a] for i in range(n)] for a in keep]
+    # solve A Z = B by Gauss-Jordan
+    M = [A[i][:] + B[i][:] for i in range(k)]
+    for c in range(k):
+        piv = next(i for i in range(c, k) if M[i][c] != 0)
+        M[c], M[piv] = M[piv], M[c]
+        M[c] = [v / M[c][c] for v in M[c]]
+        for i in range(k):
+            if i != c and M[i][c] != 0:
+                M[i] = [a - M[i][c] * b for a, b in zip(M[i], M[c])]
+    P = [[Fraction(0)] * n for _ in range(r)]
+    for a, j in enumerate(keep):
+        P[j] = M[a][k:]
+    return P
+
+
+def ref_em(X, P, Y, V1, n_iter):
+    """Defining EM recursion for one column, exact rationals (independent of nipy)."""
+    n = len(Y)
+    mv = lambda M, v: [sum(a * b for a, b in zip(row, v)) for row in M]
+    beta = mv(P, Y)
+    fit = mv(X, beta)
+    V2 = sum((y - f) ** 2 for y, f in zip(Y, fit)) / n
+    for _ in range(n_iter):
+        Z = [(V2 * y + v1 * f) / (V2 + v1) for y, v1, f in zip(Y, V1, fit)]
+        cvar = [v1 * V2 / (V2 + v1) for v1 in V1]
+        beta = mv(P, Z)
+        fit = mv(X, beta)
+        V2 = sum((z - f) ** 2 for z, f in zip(Z, fit)) / n + sum(cvar) / n
+    return beta, fit, V2
+
+
+def ref_loglike(Y, V1, fit, V2):
+    n = len(Y)
+    tv = [float(V2 + v) for v in V1]
+    return -0.5 * (sum(float(y - f) ** 2 / t for y, f, t in zip(Y, fit, tv)) + sum(math.log(t) for t in tv) + math.log(2 * math.pi) * n)
+
+
+def close(a, b, tol=1e-10):
+    a = np.asarray(a, dtype=float)
+    b = np.asarray(b, dtype=float)
+    return a.shape == b.shape and bool(np.all(np.abs(a - b) <= tol * np.maximum(1.0, np.abs(b))))
+
+
+def sec_mixed_effects(ck):
+    try:
+        from nipy.algorithms.statistics import mixed_effects_stat as ME
+    except Exception as e:  # noqa
+        ck.fail("mixed_effects/import", "mixed_effects_stat cannot be imported: %s" % e, {"kind": "correspondence-broken"}, found_input=False)
+        return
+    rng = ck.rng("mfx")
+    terms, metas = [], []
+
+    def design(kind, n):
+        if kind == "one":
+            return np.ones((n, 1))
+        if kind == "two":
+            g = np.zeros(n)
+            g[: max(1, n // 2)] = 1
+            return np.column_stack((np.ones(n), g))
+        if kind == "zero+one":                          # X0 of mfx_stat for column 0 of the two-sample design
+            return design("two", n) * np.array([0.0, 1.0])
+        cov = np.arange(n, dtype=float) - (n - 1) / 2.0  # intercept + centred covariate
+        return np.column_stack((np.ones(n), cov))
+
+    def data(n, p):
+        Y = rng.integers(-12, 13, size=(n, p)).astype(float) / 4
+        Y[0] += 0.25 * (1 + np.arange(p))               # never constant: V2 > 0
+        Y[-1] -= 1.75
+        V1 = rng.integers(0, 9, size=(n, p)).astype(float) / 8
+        return Y, V1
+
+    def state(m):
+        # normalised to (n_reg, n_tests) / (n_tests,) / (n, n_tests) whatever input form was used
+        b = np.array(m.beta_, dtype=float)
+        y_ = np.array(m.Y_, dtype=float)
+        return {"beta_": b.reshape(b.shape[0], -1), "V2": np.array(m.V2, dtype=float).reshape(-1), "Y_": y_.reshape(y_.shape[0], -1)}
+
+    def arg(A):
+        """n_tests == 1 is passed in the documented 1-D form (n_samples,)"""
+        return A[:, 0] if A.shape[1] == 1 else A
+
+    # FINDING: a 2-D input with a single test column is rejected (check_arrays adds an axis when size == shape[0])
+    Yc, Vc = data(4, 1)
+    try:
+        mc = ME.MixedEffectsModel(np.ones((4, 1)), n_iter=1).fit(Yc, Vc)
+        m1d = ME.MixedEffectsModel(np.ones((4, 1)), n_iter=1).fit(Yc[:, 0], Vc[:, 0])
+        if not close(np.asarray(mc.V2).reshape(-1), np.asarray(m1d.V2).reshape(-1)):
+            raise ValueError("(n,1) input and (n,) input give different V2")
+    except Exception as e:  # noqa
+        ck.fail("mixed_effects/n_tests=1-as-column-rejected",
+                "MixedEffectsModel(ones(4,1)).fit(Y, V1) with Y, V1 of shape (4, 1) raises %s: %s (shape (4,) works)" % (type(e).__name__, e),
+                {"X": [[1.0]] * 4, "Y": Yc.tolist(), "V1": Vc.tolist()})
+
+    def same_state(a, b):
+        return all(a[k].shape == b[k].shape and np.allclose(a[k], b[k], rtol=1e-12, atol=1e-13) for k in a)
+
+    def tolist(d):
+        return {k: np.asarray(v).tolist() for k, v in d.items()}
+
+    sizes = [(3, 1), (4, 2), (5, 1), (6, 3), (8, 2), (12, 4)]
+    if ck.thorough():
+        sizes += [(7, 5), (10, 3), (16, 6), (25, 4)]
+    ncase = 0
+    for (n, p) in sizes:                                  # small to large: first failure = smallest replay
+        for kind in ("one", "two", "cov", "zero+one"):
+            if kind != "one" and n < 4:
+                continue
+            X = design(kind, n)
+            Xf = [[frac(v) for v in row] for row in X.tolist()]
+            Pf = exact_pinv(Xf)
+            for n_iter in ([0, 1, 2, 5] if not ck.thorough() else [0, 1, 2, 3, 5, 8]):
+                Y, V1 = data(n, p)
+                ncase += 1
+                ck.count(("mfx", kind, n, p, n_iter, ncase), bucket="mixed_effects:fit-%s" % kind)
+                m = ME.MixedEffectsModel(X, n_iter=n_iter)
+                # oracle contract sampled: numpy's pinv is the Moore-Penrose inverse
+                if not close(m.pinv_X, [[float(v) for v in r] for r in Pf], 1e-12):
+                    ck.fail("mixed_effects/pinv-contract", "np.linalg.pinv(X) differs from the exact pseudo-inverse", {"X": X.tolist()}, found_input=True)
+                m.fit(arg(Y), arg(V1))
+                got = state(m)
+                ll = np.asarray(m.log_like(arg(Y), arg(V1)), dtype=float).reshape(-1)
+                for j in range(p):
+                    yj = [frac(v) for v in Y[:, j]]
+                    vj = [frac(v) for v in V1[:, j]]
+                    beta, fit, V2 = ref_em(Xf, Pf, yj, vj, n_iter)
+                    okb = close(got["beta_"][:, j], [float(b) for b in beta])
+                    okv = close(got["V2"][j], float(V2))
+                    okl = close(ll[j], ref_loglike(yj, vj, fit, V2))
+                    if not (okb and okv and okl):
+                        ck.fail("mixed_effects/fit-not-em-definition",
+                                "MixedEffectsModel(X %s, n_iter=%d).fit: column %d gives beta_=%s V2=%r loglik=%r; defining EM recursion gives beta=%s V2=%r"
+                                % (kind, n_iter, j, got["beta_"][:, j].tolist(), float(got["V2"][j]), float(ll[j]), [float(b) for b in beta], float(V2)),
+                                {"X": X.tolist(), "n_iter": n_iter, "Y": Y[:, j].tolist(), "V1": V1[:, j].tolist(),
+                                 "got": {"beta_": got["beta_"][:, j].tolist(), "V2": float(got["V2"][j])},
+                                 "expected": {"beta": [str(b) for b in beta], "V2": str(V2)}})
+                    if n <= 6 and n_iter <= 2 and j == 0:
+                        terms.append("(let r := fit_method %s %s %s fresh_obj %s %s in qclose (fit_V2 r) %s && qlclose (fit_beta r) %s)%%bool"
+                                     % (cqmat(Pf), cqmat(Xf), cnat(n_iter), cql(yj), cql(vj), cq(float(got["V2"][j])), cql(got["beta_"][:, j].tolist())))
+                        metas.append(("mfx", Pf, Xf, n_iter, yj, vj))
+                # history independence: the SAME object after earlier fits vs a fresh object
+                fresh = got
+                for prev in ("same-shape", "same-sample", "other-n_tests", "two-earlier-fits"):
+                    obj = ME.MixedEffectsModel(X, n_iter=n_iter)
+                    seq = []
+                    if prev == "same-shape":
+                        seq = [data(n, p)]
+                        seq[0] = (seq[0][0] * 3 + 2, seq[0][1])
+                    elif prev == "same-sample":
+                        seq = [(Y, V1)]
+                    elif prev == "other-n_tests":
+                        seq = [data(n, p + 1)]
+                    else:
+                        seq = [data(n, p), data(n, p)]
+                    for (Ya, Va) in seq:
+                        obj.fit(arg(Ya), arg(Va))
+                    obj.fit(arg(Y), arg(V1))
+                    ck.count(("mfx-hist", kind, n, p, n_iter, prev, ncase), bucket="mixed_effects:history-%s" % prev)
+                    if not same_state(state(obj), fresh):
+                        ck.fail("mixed_effects/fit-depends-on-history",
+                                "MixedEffectsModel(X %s %dx%d, n_iter=%d): fit(A) then fit(B) on one object (%s) gives V2=%s, a fresh object fitted to B gives V2=%s"
+                                % (kind, X.shape[0], X.shape[1], n_iter, prev, np.asarray(obj.V2).tolist(), fresh["V2"].tolist()),
+                                {"X": X.tolist(), "n_iter": n_iter, "kind": prev,
+                                 "sequence": [{"call": "fit", "Y": a.tolist(), "V1": b.tolist()} for (a, b) in seq] + [{"call": "fit", "Y": Y.tolist(), "V1": V1.tolist()}],
+                                 "reused_object": tolist(state(obj)), "fresh_object": tolist(fresh)})
+                # wrappers agree with the class / the definition
+                if kind in ("one", "two", "cov"):
+                    col = X.shape[1] - 1 if kind != "one" else 0
+                    X0 = X * (1 - np.eye(X.shape[1])[col])
+                    if p == 1:
+                        continue                          # wrappers index Y.shape[1]-style 2-D inputs; covered with p >= 2
+                    m0 = ME.MixedEffectsModel(X0, n_iter=n_iter).fit(Y, V1)
+                    m1 = ME.MixedEffectsModel(X, n_iter=n_iter).fit(Y, V1)
+                    f_ref = np.maximum(0, 2 * (m1.log_like(Y, V1) - m0.log_like(Y, V1)))
+                    t_ref = np.sqrt(f_ref) * np.sign(m1.beta_[col])
+                    out = ME.mfx_stat(Y, V1, X, col, n_iter=n_iter, return_t=True, return_f=True)
+                    ck.count(("mfx-stat", kind, n, p, n_iter, ncase), bucket="mixed_effects:mfx_stat")
+                    if not (len(out) == 2 and close(out[0], t_ref) and close(out[1], f_ref)):
+                        ck.fail("mixed_effects/mfx_stat-not-likelihood-ratio", "mfx_stat(t, f) differs from sign(beta) sqrt(2 (ll1 - ll0)) computed from two class fits",
+                                {"X": X.tolist(), "column": col, "n_iter": n_iter, "Y": Y.tolist(), "V1": V1.tolist()})
+                    out4 = ME.mfx_stat(Y, V1, X, col, n_iter=n_iter, return_t=False, return_f=False, return_effect=True, return_var=True)
+                    if len(out4) == 2 and close(out4[0], m1.V2) and close(out4[1], m1.beta_[col]) and not close(out4[0], m1.beta_[col]):
+                        ck.fail("mixed_effects/mfx_stat-returns-var-before-effect",
+                                "mfx_stat(return_effect=True, return_var=True) returns (var, effect); the docstring promises (tstat, fstat, effect, var)",
+                                {"X": X.tolist(), "column": col, "Y": Y.tolist(), "V1": V1.tolist(), "out": [np.asarray(o).tolist() for o in out4]})
+                    elif not (len(out4) == 2 and close(out4[0], m1.beta_[col]) and close(out4[1], m1.V2)):
+                        ck.fail("mixed_effects/mfx_stat-effect-var", "mfx_stat effect/var outputs are not beta_[column] / V2 of the full model",
+                                {"X": X.tolist(), "column": col, "Y": Y.tolist(), "V1": V1.tolist()})
+                    if kind == "one":
+                        t1 = ME.one_sample_ttest(Y, V1, n_iter=n_iter)
+                        f1 = ME.one_sample_ftest(Y, V1, n_iter=n_iter)
+                        if not (close(t1, t_ref) and close(f1, f_ref)):
+                            ck.fail("mixed_effects/one_sample-wrapper", "one_sample_ttest/ftest differ from mfx_stat with X = ones, column 0",
+                                    {"n_iter": n_iter, "Y": Y.tolist(), "V1": V1.tolist()})
+                        tn = ME.one_sample_ttest(-Y, V1, n_iter=n_iter)
+                        if not close(tn, -np.asarray(t1), 1e-9):
+                            ck.fail("mixed_effects/one_sample-not-antisymmetric", "one_sample_ttest(-Y, V1) != -one_sample_ttest(Y, V1)",
+                                    {"n_iter": n_iter, "Y": Y.tolist(), "V1": V1.tolist()})
+                    if kind == "two":
+                        g = X[:, 1]
+                        t2 = ME.two_sample_ttest(Y, V1, g, n_iter=n_iter)
+                        f2 = ME.two_sample_ftest(Y, V1, g, n_iter=n_iter)
+                        if not (close(t2, t_ref) and close(f2, f_ref)):
+                            ck.fail("mixed_effects/two_sample-wrapper", "two_sample_ttest/ftest differ from mfx_stat with X = [1, group], column 1",
+                                    {"n_iter": n_iter, "group": g.tolist(), "Y": Y.tolist(), "V1": V1.tolist()})
+                        ts = ME.two_sample_ttest(Y, V1, 1 - g, n_iter=n_iter)
+                        if not close(ts, -np.asarray(t2), 1e-8):
+                            ck.fail("mixed_effects/two_sample-label-swap", "two_sample_ttest with swapped labels != -two_sample_ttest",
+                                    {"n_iter": n_iter, "group": g.tolist(), "Y": Y.tolist(), "V1": V1.tolist()})
+
+    def show(t):
+        return "(let r := fit_method %s %s %s fresh_obj %s %s in (fit_V2 r, fit_beta r))" % (cqmat(t[1]), cqmat(t[2]), cnat(t[3]), cql(t[4]), cql(t[5]))
+    run_terms(ck, "mixed_effects", terms, metas, show, hdr=HDR_MFX, shard=6)
+    ck.section("mixed_effects", fit_cases=ncase, model_cases=len(terms),
+               note="model gets the exact pseudo-inverse (np.linalg.pinv sampled against it, 1e-12); comparison tolerance 1e-10")
+
+
+def sec_varatio(ck):
+    try:
+        from nipy.algorithms.statistics import onesample as OSM
+    except Exception as e:  # noqa
+        return
+    rng = ck.rng("varatio")
+
+    def posr(x):
+        return 1 / x if x > 0 else Fraction(0)
+    for it in range(ck.n(30, 150)):
+        n = int(rng.integers(3, 9))
+        p = int(rng.integers(1, 3))
+        niter = int(rng.integers(0, 4))
+        Y = rng.integers(-8, 9, size=(n, p)).astype(float) / 2
+        Y[0] += 0.5
+        sd = 2.0 ** rng.integers(-1, 2, size=(n, p)).astype(float)
+        df = None if it % 2 else rng.integers(1, 6, size=n).astype(float)
+        out = OSM.estimate_varatio(Y.copy(), sd.copy(), df=None if df is None else df.copy(), niter=niter)
+        ck.count(("varatio", it), bucket="estimate_varatio")
+        for j in range(p):
+            y = [frac(v) for v in Y[:, j]]
+            S = [1 / posr(frac(s) ** 2) for s in sd[:, j]]
+            mean = sum(y) / n
+            sigma2 = sum((a - mean) ** 2 for a in y) / (n - 1)
+            minS = min(S) * Fraction(99, 100)
+            # 0.99 is not a dyadic: the implementation's float(0.99) is used for the exact recomputation
+            minS = min(S) * frac(0.99)
+            Sm = [s - minS for s in S]
+            for _ in range(niter):
+                W = [posr(sm + sigma2) for sm in Sm]
+                Winv = posr(sum(W))
+                mu = Winv * sum(w * a for w, a in zip(W, y))
+                R = [w * (a - mu) for w, a in zip(W, y)]
+                ptrS = 1 + sum(sm * w for sm, w in zip(Sm, W)) - sum(sm * w * w for sm, w in zip(Sm, W)) * Winv
+                sigma2 = (sigma2 * ptrS + sigma2 ** 2 * sum(r * r for r in R)) / n
+            sigma2 = sigma2 - minS
+            d = [Fraction(1)] * n if df is None else [frac(v) for v in df]
+            fixed = sum(a * s for a, s in zip(d, S)) / sum(d)
+            g_fixed = float(np.asarray(out["fixed"]).reshape(-1)[j])
+            g_rand = float(np.asarray(out["random"]).reshape(-1)[j])
+            g_ratio = float(np.asarray(out["ratio"]).reshape(-1)[j])
+            if not (close(g_fixed, float(fixed)) and close(g_rand, float(sigma2)) and close(g_ratio, float(sigma2 / fixed))):
+                ck.fail("estimate_varatio/not-definition",
+                        "estimate_varatio(niter=%d) gives fixed=%r random=%r ratio=%r; the defining recursion gives %r %r %r"
+                        % (niter, g_fixed, g_rand, g_ratio, float(fixed), float(sigma2), float(sigma2 / fixed)),
+                        {"Y": Y[:, j].tolist(), "sd": sd[:, j].tolist(), "df": None if df is None else df.tolist(), "niter": niter})
+    ck.section("estimate_varatio", note="re-computed with exact rationals (float(0.99) as in the source), tolerance 1e-10")
+
 
 
 def run(ck):
@@ -730,3 +1022,5 @@ def run(ck):
     sec_stats(ck, L)
     sec_pvalues(ck)
     sec_python_stats(ck)
+    sec_varatio(ck)
+    sec_mixed_effects(ck)
